@@ -87,6 +87,12 @@ func init() {
 			e.ext["blocked-label"] = argStr(e, a[0])
 			return nil
 		},
+		// vpUnsupported(msg): the harness' environment model does not cover what the code under
+		// test just did; the path ends INCONCLUSIVE (never a verdict)
+		"vpUnsupported": func(e *Exec, _ *frame, _ *ssa.Function, a []Value) Value {
+			e.unsupported("%s", argStr(e, a[0]))
+			return nil
+		},
 		"vpYield": func(e *Exec, _ *frame, _ *ssa.Function, a []Value) Value { e.yield(); return nil },
 		// vpPreempt(k): from here on every schedule with at most k preemptions at synchronisation
 		// operations is explored (0 switches it off: back to the canonical schedule)
